@@ -214,6 +214,34 @@ theorem C08_counterexample_committed_next_then_extend :
     agrees s (.props 1 0) = false := by
   decide
 
+/-- consequence of the stale account cache that reaches the DATABASE: a NextAddresses (or ExtendAddresses) on an
+account that only lives in the cache fails in `putChainedAddress` AFTER `putAddress` has written the address row
+(the account row is missing); when the caller commits the bracket in spite of the error, the orphan address row is
+committed.  The running manager resolves it through the cached account, a restarted one answers
+ErrAccountNotFound.  (Found by the thorough differential tier; replay: corpus/addrmgr-lock/
+orphan-address-row-failed-next-committed.ops.) -/
+theorem C08_counterexample_orphan_address_row :
+    let s0 := run { cfg := Cfg.repo2 }
+      [.create 5 1, .unlock 1, .begin, .newAccount 1 "fresh" false, .q (.props 1 1), .rollback, .begin]
+    let r := step s0 (.next 1 1 1 false)
+    let s := (step r.1 .commit).1
+    r.2 = .err .database ∧
+    aget (s.disk.scopes 1).addrs (.chain 1 0 0) = some .chain ∧ aget (s.disk.scopes 1).accts 1 = none ∧
+    (s.mem.map fun m => (query s.disk m (.address 1 (.chain 1 0 0))).2) = some (.addr (.chain 1 0 0) 1) ∧
+    (query s.disk (openMem s.disk) (.address 1 (.chain 1 0 0))).2 = .err .accountNotFound ∧
+    agrees s (.address 1 (.chain 1 0 0)) = false := by
+  decide
+
+/-- the same through ExtendAddresses (the shape the thorough tier hit): only the FIRST address row of the failing
+write loop is left behind. -/
+theorem C08_counterexample_orphan_address_row_extend :
+    let s := run { cfg := Cfg.repo2 }
+      [.create 5 1, .unlock 1, .begin, .newAccount 1 "fresh" false, .q (.props 1 1), .rollback,
+       .begin, .extend 1 1 2 true, .commit]
+    agrees s (.address 1 (.chain 1 1 0)) = false ∧ agrees s (.address 1 (.chain 1 1 1)) = true ∧
+    aget (s.disk.scopes 1).addrs (.chain 1 1 1) = none := by
+  decide
+
 /-- … whereas committed single operations agree (non-vacuity of `agrees`, and the shape the wallet uses). -/
 example :
     let s := run { cfg := Cfg.repo }
